@@ -47,9 +47,6 @@ theorem C18_refines (c : Cfg) (hg : c.Good) (k : Kernel) (pid : Nat) (st : PStat
   | cpuAffinity cpus => exact refines_affinity c hg k pid st cpus o k' hpid hst hwf hreg hs
   | rlimit res l => exact refines_rlimit c hg k pid st res l o k' hpid hst hs
 
-theorem replaced_self (k : Kernel) (pid : Nat) (st : PState) (e : Eff) :
-    (Spec.replaced k pid st e).procs pid = some st := if_pos rfl
-
 /-! ### get reads the kernel -/
 
 theorem C18_get_nice (c : Cfg) (k : Kernel) (pid : Nat) (st : PState) (hpid : pid ≠ 0)
@@ -189,20 +186,6 @@ def ValidLimits (k : Kernel) (st : PState) (res : Nat) (s h : Int) (s' h' : Nat)
   res < 16 ∧ Spec.limitOfPy s = some s' ∧ Spec.limitOfPy h = some h' ∧ s' ≤ h' ∧
     (res = 7 → h' ≤ k.nrOpen) ∧ (k.capResource = true ∨ h' ≤ (st.rlimits res).2)
 
-theorem limitToPy_limitOfPy {v : Int} {n : Nat} (h : Spec.limitOfPy v = some n) : Spec.limitToPy n = some v := by
-  unfold Spec.limitOfPy at h
-  unfold Spec.limitToPy
-  split at h
-  · rename_i e; subst e
-    simp only [Option.some.injEq] at h; subst h; rfl
-  · split at h
-    · simp only [Option.some.injEq] at h; subst h
-      have : ¬ (v.toNat = Spec.rlimInfinity) := by simp only [Spec.rlimInfinity]; omega
-      have h2 : v.toNat < 9223372036854775808 := by omega
-      simp only [this, if_false, h2, if_true, Option.some.injEq]
-      omega
-    · cases h
-
 theorem C18_set_then_get_rlimit (c : Cfg) (hg : c.Good) (k : Kernel) (pid : Nat) (st : PState)
     (res : Nat) (s h : Int) (s' h' : Nat) (hpid : pid ≠ 0) (hst : k.procs pid = some st)
     (hv : ValidLimits k st res s h s' h') :
@@ -282,49 +265,10 @@ theorem C18_invalid_ValueError_no_effect (c : Cfg) (hg : c.Good) (k : Kernel) (p
     | [_], _ => rfl
     | _ :: _ :: _ :: _, _ => rfl
 
-/-- a non-empty CPU list naming only CPUs that do not exist or that the process may not use -/
-def OnlyUnusableCpus (k : Kernel) (st : PState) (cpus : List Int) : Prop :=
-  cpus ≠ [] ∧ ∀ x ∈ cpus, fitsCLong x = true ∧ (x < 0 ∨ k.ncpu ≤ x.toNat ∨ ¬ x.toNat ∈ st.cpuset)
-
 /-- the statement at full strength: such a list raises ValueError and changes nothing -/
 def C18_invalid_cpus_Full (c : Cfg) : Prop :=
   ∀ (k : Kernel) (pid : Nat) (st : PState) (cpus : List Int), pid ≠ 0 → k.procs pid = some st → WF k st →
     OnlyUnusableCpus k st cpus → step c k pid (.cpuAffinity (some cpus)) = (.exc .valueError, k)
-
-theorem expect_of_onlyUnusable {k : Kernel} {st : PState} {cpus : List Int} (pid : Nat)
-    (h : OnlyUnusableCpus k st cpus) :
-    Spec.expect k pid st (.cpuAffinity (some cpus)) = .promised (.exc .valueError) k := by
-  obtain ⟨hne, hall⟩ := h
-  have hemp : cpus.isEmpty = false := by
-    cases cpus with
-    | nil => exact absurd rfl hne
-    | cons _ _ => rfl
-  have h1 : ¬ (cpus.all fun x => decide (0 ≤ x) && (Spec.eligible k st).contains x.toNat) = true := by
-    rw [List.all_eq_true]
-    intro hh
-    cases hc : cpus with
-    | nil => exact hne hc
-    | cons y _ =>
-      have hy : y ∈ cpus := by simp [hc]
-      have := hh y hy
-      simp only [Bool.and_eq_true, decide_eq_true_eq, List.contains_iff_mem] at this
-      have he := (mem_eligible k st _).1 this.2
-      have h0 := this.1
-      rcases (hall y hy).2 with h | h | h
-      · omega
-      · omega
-      · exact h he.2
-  have h2 : (cpus.all fun x => fitsCLong x && Spec.isNonexistentOrIneligible k st x) = true := by
-    rw [List.all_eq_true]
-    intro x hx
-    obtain ⟨hf, hu⟩ := hall x hx
-    simp only [Bool.and_eq_true, hf, true_and, Spec.isNonexistentOrIneligible, Bool.or_eq_true,
-      decide_eq_true_eq, Bool.not_eq_true', List.contains_eq_mem, decide_eq_false_iff_not]
-    rcases hu with hu | hu | hu
-    · exact Or.inl hu
-    · exact Or.inr (fun he => by have := ((mem_eligible k st _).1 he).1; omega)
-    · exact Or.inr (fun he => hu ((mem_eligible k st _).1 he).2)
-  simp only [Spec.expect, hemp, Bool.false_eq_true, if_false, h1, h2, if_true]
 
 /-- proved part: outside the region of the known finding (i.e. when some listed CPU does not
     exist, or when the status line starts with a range) the statement holds -/
@@ -339,17 +283,48 @@ theorem C18_invalid_cpus_partial (c : Cfg) (hg : c.Good) (k : Kernel) (pid : Nat
   · have := hall x hx; omega
   · exact hout hsr
 
-/-- a concrete kernel: 4 CPUs, the process confined to CPUs 0-1 and currently on CPU 0 -/
-def kWitness : Kernel :=
-  { procs := fun q => if q = 7 then
-      some { nice := 0, ioprio := 0, affinity := [0], cpuset := [0, 1], rlimits := fun _ => (0, 0) } else none
-    self := 1, ncpu := 4, nrOpen := 1048576, capResource := true, log := [] }
-
-def stWitness : PState :=
-  { nice := 0, ioprio := 0, affinity := [0], cpuset := [0, 1], rlimits := fun _ => (0, 0) }
-
-theorem wf_witness : WF kWitness stWitness :=
-  ⟨by decide, by decide, by decide, by decide, by decide, fun _ => ⟨by simp [stWitness], by simp [stWitness]⟩⟩
+/-- the "changes nothing" half holds at full strength, also inside the region of the finding:
+    such a list never changes the kernel, and the call always raises (ValueError, or the
+    kernel's EINVAL passed on as OSError) -/
+theorem C18_invalid_cpus_no_effect (c : Cfg) (k : Kernel) (pid : Nat) (st : PState)
+    (cpus : List Int) (hpid : pid ≠ 0) (hst : k.procs pid = some st) (hn : k.ncpu ≤ 1024)
+    (h : OnlyUnusableCpus k st cpus) :
+    (step c k pid (.cpuAffinity (some cpus))).2 = k ∧
+    ((step c k pid (.cpuAffinity (some cpus))).1 = .exc .valueError ∨
+     (step c k pid (.cpuAffinity (some cpus))).1 = .exc (.osError .EINVAL)) := by
+  obtain ⟨hne, hall⟩ := h
+  have hemp : cpus.isEmpty = false := by
+    cases cpus with
+    | nil => exact absurd rfl hne
+    | cons _ _ => rfl
+  simp only [step, cpuAffinity, hemp, Bool.false_eq_true, if_false]
+  have hl : AllLong cpus := fun v hv => (hall v hv).1
+  have hel : ∃ el, getEligibleCpus k pid = some el := by
+    simp only [getEligibleCpus, hst]
+    split <;> exact ⟨_, rfl⟩
+  obtain ⟨el, hel⟩ := hel
+  by_cases hm1 : (-1 : Int) ∈ cpus
+  · have := cpuSetOfSeq_minus1 (allLong_dedup c hl) ((mem_dedup c cpus _).2 hm1)
+    simp only [cpuAffinitySet, cextAffinitySet, this, hel, true_or, if_true]
+    split <;> simp [wrapExc]
+  · obtain ⟨m, hm, hmem⟩ := cpuSetOfSeq_ok (allLong_dedup c hl) (fun h => hm1 ((mem_dedup c cpus _).1 h))
+    have hmem' : ∀ x : Nat, x ∈ m ↔ (x < 1024 ∧ (x : Int) ∈ cpus) := fun x => by rw [hmem, mem_dedup c]
+    have hgr := granted_eq k st m cpus hn hmem'
+    have hnil : (List.range k.ncpu).filter
+        (fun (x : Nat) => decide ((x : Int) ∈ cpus) && st.cpuset.contains x) = [] := by
+      rw [List.filter_eq_nil_iff]
+      intro x hx
+      have hx' : x < k.ncpu := List.mem_range.1 hx
+      simp only [Bool.and_eq_true, decide_eq_true_eq, List.contains_iff_mem]
+      rintro ⟨h1, h2⟩
+      rcases (hall _ h1).2 with h | h | h
+      · omega
+      · rw [Int.toNat_natCast] at h; omega
+      · rw [Int.toNat_natCast] at h; exact h h2
+    rw [hnil] at hgr
+    simp only [cpuAffinitySet, cextAffinitySet, hm, sysSchedSetaffinity, resolve_pid k hpid, hst, hgr,
+      List.isEmpty_nil, if_true, ofSys, or_true, hel]
+    split <;> simp [wrapExc]
 
 /-- the full statement is false of the code (known finding `C18-ineligible-oserror`):
     `cpu_affinity([2])` on that process raises OSError(EINVAL), not ValueError -/
